@@ -39,6 +39,31 @@ func bufferDecisionAtomic(c *Ctx, rule string) {
 		c.Ob(rule, "sio.clientSocket.onEvent/buffer-decision-under-receiveBufferMu", st.Pos(), ok && li.HoldsW(st, "s.receiveBufferMu"),
 			"the event is appended to receiveBuffer on the strength of a state read made BEFORE receiveBufferMu was taken: CONNECT is handled on another goroutine, so onConnect can set the state and emitBuffered can replay and clear the buffer in between — the event then sits in the buffer and is never delivered. The state must be (re-)read inside the critical section (emitBuffered takes the same mutex after the state is set); held="+li.Held(st).String())
 	}
+	// the send side (F56's repair): the decision "not connected → keep the frames for later" of _sendBuffers is taken
+	// while sendBufferMu is held, in the critical section of the append — emitBuffered flushes under the same mutex
+	// after onConnect has set the state, so frames appended on the strength of an OLDER state read would sit in the
+	// buffer until the next reconnection
+	{
+		sf := p.Fn("sio", "clientSocket._sendBuffers")
+		sli := Locks(sf)
+		bv := p.Field("sio", "clientSocket", "sendBuffer")
+		for _, st := range findInstrs(sf, fieldStorePred(bv)) {
+			if Term(st.(*ssa.Store).Val) == "nil" {
+				continue
+			}
+			ok := false
+			for _, fa := range FieldAccesses(sf) {
+				if fa.Field != sv || fa.Write {
+					continue
+				}
+				if sli.HoldsAny(fa.Instr, "s.sendBufferMu") && Dominates(fa.Instr, st) && SameRegion(sli, fa.Instr, st, "s.sendBufferMu") {
+					ok = true
+				}
+			}
+			c.Ob(rule, "sio.clientSocket._sendBuffers/buffer-decision-under-sendBufferMu", st.Pos(), ok && sli.HoldsW(st, "s.sendBufferMu"),
+				"the frames are appended to sendBuffer on the strength of a state read made before sendBufferMu was taken: onConnect can set the state and emitBuffered can flush the buffer in between — the frames stay in the buffer until the next reconnection; held="+sli.Held(st).String())
+		}
+	}
 	// the other half: onConnect sets the state before emitBuffered, and emitBuffered clears under the mutex
 	oc := p.Fn("sio", "clientSocket.onConnect")
 	sts := findInstrs(oc, fieldStorePred(sv))
